@@ -1199,28 +1199,32 @@ Proof.
   split; [now apply dict_values_forall2|]. unfold set_dict. now rewrite E.
 Qed.
 
+Lemma join_dims_scope d2 : forall d1, exists extra,
+  join_dims d1 d2 = d1 ++ extra /\
+  (forall v, In v extra -> In v d2 /\ ~ In v d1) /\
+  (forall v, In v d2 -> In v (d1 ++ extra)).
+Proof.
+  unfold join_dims. induction d2 as [|d d2 IH]; intro d1; simpl.
+  - exists []. rewrite app_nil_r. split; [reflexivity|]. split; intros v [].
+  - destruct (var_mem d d1) eqn:E.
+    + destruct (IH d1) as [extra [H1 [H2 H3]]]. exists extra. split; [exact H1|]. split.
+      * intros v Hv. destruct (H2 v Hv). split; auto.
+      * intros v [<-|Hv]; auto. apply in_or_app. left. now apply var_mem_In.
+    + destruct (IH (d1 ++ [d])) as [extra [H1 [H2 H3]]]. exists (d :: extra).
+      split. { rewrite H1, <- app_assoc. reflexivity. } split.
+      * intros v [<-|Hv].
+        -- split; [now left|]. intro Hin. apply var_mem_In in Hin. congruence.
+        -- destruct (H2 v Hv) as [A B]. split; [now right|]. intro Hin. apply B.
+           apply in_or_app. now left.
+      * intros v [<-|Hv]. { apply in_or_app. right. now left. }
+        specialize (H3 v Hv). rewrite <- app_assoc in H3. exact H3.
+Qed.
+
 Theorem join_scope_l : forall u1 u2, exists extra,
   join_dims (r_dims u1) (r_dims u2) = r_dims u1 ++ extra /\
   (forall v, In v extra -> In v (r_dims u2) /\ ~ In v (r_dims u1)) /\
   (forall v, In v (r_dims u2) -> In v (r_dims u1 ++ extra)).
-Proof.
-  intros u1 u2. generalize (r_dims u1) as d1. unfold join_dims.
-  induction (r_dims u2) as [|d d2 IH]; intro d1; simpl.
-  - exists []. rewrite app_nil_r. repeat split; auto; intros v [].
-  - destruct (var_mem d d1) eqn:E.
-    + destruct (IH d1) as [extra [H1 [H2 H3]]]. exists extra. repeat split; auto.
-      * right. now apply H2.
-      * now apply H2.
-      * intros v [<-|Hv]; auto. apply in_or_app. left. now apply var_mem_In.
-    + destruct (IH (d1 ++ [d])) as [extra [H1 [H2 H3]]]. exists (d :: extra).
-      rewrite H1, <- app_assoc. simpl. repeat split; auto.
-      * destruct H as [<-|Hv]; auto. right. now apply H2.
-      * destruct H as [<-|Hv].
-        -- intro Hin. apply var_mem_In in Hin. congruence.
-        -- intro Hin. apply (proj2 (H2 v Hv)). apply in_or_app. now left.
-      * intros v [<-|Hv]. { apply in_or_app. right. now left. }
-        specialize (H3 v Hv). rewrite <- app_assoc in H3. exact H3.
-Qed.
+Proof. intros u1 u2. apply join_dims_scope. Qed.
 
 Theorem projection_spec_l : forall r x m,
   wf_rel r -> NoDup (names (r_dims r)) -> In x (r_dims r) -> v_dom x <> [] ->
